@@ -151,8 +151,8 @@ fn parse_method_arguments<'a>(
                 name,
                 ty_for_params,
                 has_lifetime,
-                is_optional: false,
-                serialized_name: None,
+                is_optional: crate::utils::is_option_type(ty),
+                serialized_name: crate::utils::parse_zlink_string_attr(&pat_type.attrs, "rename"),
             }))
         })
         .collect()
@@ -198,7 +198,8 @@ fn generate_method_call_creation(
             .map(|info| {
                 let name = info.name;
                 let ty = &info.ty_for_params;
-                quote! { pub #name: #ty }
+                let serde_attrs = super::utils::param_field_serde_attrs(info);
+                quote! { #serde_attrs pub #name: #ty }
             })
             .collect();
 
